@@ -387,9 +387,30 @@ class Engine(object):
         return [Out(NEXT, st)]
 
     def st_FunctionDef(self, s, st):
-        st.env[s.name] = ('closure', s.name, id(s))
         self._closures[id(s)] = (s, None)
-        return [Out(NEXT, st)]
+        val = ('closure', s.name, id(s))
+        if not s.decorator_list:
+            st.env[s.name] = val
+            return [Out(NEXT, st)]
+        # decorators are applied bottom-up: name = d1(d2(f))
+        results = [R(st, val)]
+        for dn in reversed(s.decorator_list):
+            nxt = []
+            for r in results:
+                if r.exc is not None:
+                    nxt.append(r)
+                    continue
+                for rd in self.ev(dn, r.st):
+                    if rd.exc is not None:
+                        nxt.append(rd)
+                    else:
+                        nxt.extend(self.call(rd.val, (r.val,), (), rd.st, dn))
+            results = nxt
+
+        def then(st2, v):
+            st2.env[s.name] = v
+            return [Out(NEXT, st2)]
+        return self._from_results(results, then)
 
     def st_ClassDef(self, s, st):
         st.env[s.name] = ('opaque', 'class:' + s.name)
@@ -759,13 +780,9 @@ class Engine(object):
         h = self.model.sub_load(obj, idx, st, node)
         if h is not None:
             return h
-        if obj[0] in ('tuple', 'list') and is_const(idx) and isinstance(idx[1], int) \
+        if obj[0] == 'tuple' and is_const(idx) and isinstance(idx[1], int) \
                 and -len(obj[1]) <= idx[1] < len(obj[1]) and not any(x[0] == 'star' for x in obj[1]):
             return [R(st, obj[1][idx[1]])]
-        if obj[0] == 'dict' and is_const(idx):
-            for k, val in obj[1]:
-                if k == idx:
-                    return [R(st, val)]
         return [R(st, ('sub', obj, idx))]
 
     def attr_store(self, obj, attr, v, st, node):
@@ -1313,6 +1330,7 @@ class Engine(object):
                 outs.extend(self.loop_over(r.val, r.st, g.target, None, None, n, self.comp_unroll, body_fn=body_fn))
             return outs
 
+        shape = self._comp_shape(n, st, kind)
         # comprehension has its own scope: restore shadowed names afterwards
         names = set()
         for g in gens:
@@ -1329,13 +1347,35 @@ class Engine(object):
                 else:
                     o.st.env[k] = v
             if o.kind == NEXT:
-                elt = o.st.facts.pop('__comp_elt', ('opaque', 'noelt'))
-                res.append(R(o.st, ('comp', kind, elt)))
+                o.st.facts.pop('__comp_elt', None)
+                res.append(R(o.st, ('comp', kind, shape)))
             elif o.kind == RAISE:
                 res.append(R(o.st, None, o.exc, o.line))
             else:
-                res.append(R(o.st, ('comp', kind, ('opaque', 'noelt'))))
+                res.append(R(o.st, ('comp', kind, shape)))
         return res
+
+    def _comp_shape(self, n, st, kind):
+        """the element term of a comprehension, independent of how many iterations a path takes
+        (dry evaluation on a discarded copy of the state; loop variables are each(iterable)#*)"""
+        dry = st.fork()
+        try:
+            for g in n.generators:
+                rs = [r for r in self.ev(g.iter, dry) if r.exc is None]
+                if not rs:
+                    return ('opaque', 'noelt')
+                dry = rs[-1].st
+                outs = [o for o in self.assign(g.target, ('iter', rs[-1].val, '*'), dry) if o.kind == NEXT]
+                if not outs:
+                    return ('opaque', 'noelt')
+                dry = outs[-1].st
+            if kind == 'dict':
+                rs = [r for r in self.ev_seq([n.key, n.value], dry) if r.exc is None]
+                return ('tuple', tuple(rs[-1].val)) if rs else ('opaque', 'noelt')
+            rs = [r for r in self.ev(n.elt, dry) if r.exc is None]
+            return rs[-1].val if rs else ('opaque', 'noelt')
+        except AnalysisError:
+            return ('opaque', 'noelt')
 
     def ex_ListComp(self, n, st):
         return self._comp(n, st, 'list')
